@@ -19,16 +19,17 @@ from concurrent.futures import ThreadPoolExecutor
 from harness import colang2, progs2, tlc, v2corpus
 
 SPEC_DIR = "/verif/specs/colang2"
-FRAGMENT_FEATURES = {"when", "if", "while", "groups", "return", "abort", "vars", "start", "actions", "refs", "activate"}
+FRAGMENT_FEATURES = {"when", "if", "while", "groups", "return", "abort", "vars", "start", "actions", "refs", "activate", "priority", "loop"}
 INVARIANTS = ("QueueEmpty", "Parked", "IndexIsScan", "DoneNoHeads",      # C09
               "L1S", "L2S",                                                # C06 (keeper, action life-cycle monitor)
+              "C05S",                                                      # C05 (every conflict resolution of the call: winner not beaten, identical co-win, rest stopped)
               "NoFuelOut",                                                 # C10 (no recursion budget exhausted)
               "AgeInvisible", "NoDangling",                                # C11 (discarding old finished instances changes nothing)
               "ScopeActionsExist")                                              # C11 (discarding old finished instances changes nothing)
 PROPERTIES = ("L2bS", "L2cS",                                              # C06 (stop-on-end, shared actions)
               "EventBound")                                                # C10 (internal events per call linear in program size x instances)
 SERVES = {"QueueEmpty": "C09", "Parked": "C09", "IndexIsScan": "C09", "DoneNoHeads": "C09", "L1S": "C06", "L2S": "C06", "L2bS": "C06", "L2cS": "C06",
-          "NoFuelOut": "C10", "EventBound": "C10", "AgeInvisible": "C11", "NoDangling": "C11", "ScopeActionsExist": "C09"}
+          "C05S": "C05", "NoFuelOut": "C10", "EventBound": "C10", "AgeInvisible": "C11", "NoDangling": "C11", "ScopeActionsExist": "C09"}
 
 
 # directed programs (always explored, one step deeper): shared activation, restart chains, late references to finished
@@ -45,6 +46,9 @@ DIRECTED = [
     "flow o\n  when A1Action(x=1)\n    send Out1()\n  or when E1()\n    send Out2()\n  match E2()\n\nflow main\n  activate o\n  match E3()\n  match Never()\n",
     # identical actions started inside scopes by two flows in one step (merged by the conflict resolution), scopes left separately
     "flow a\n  match E1()\n  when A1Action(x=1)\n    send Out1()\n  or when E2()\n    send Out2()\n  match E3()\n\nflow b\n  match E1()\n  when A1Action(x=1)\n    send Out3()\n  or when E3()\n    send Out4()\n  match E2()\n\nflow main\n  start a\n  start b\n  match Never()\n",
+    # competing flows: specificity, priority 0.5, a named loop, identical actions, a competitor with a failure handler
+    "flow a\n  match E1()\n  start A1Action(x=1)\n  match E3()\n\nflow b\n  match E1(p=1)\n  start A2Action(x=1)\n  match E3()\n\nflow c\n  priority 0.5\n  match E1(p=1)\n  start A1Action(x=2)\n  match E3()\n\n@loop(\"la\")\nflow d\n  match E1()\n  start A2Action(x=2)\n  match E3()\n\nflow main\n  start a\n  start b\n  start c\n  start d\n  match Never()\n",
+    "flow a\n  match E1()\n  send Out1()\n  match E2()\n\nflow b\n  match E1()\n  send Out1()\n  match E3()\n\nflow c\n  match E1()\n  when A1Action(x=1)\n    send Out2()\n  or when E2()\n    send Out3()\n\nflow main\n  activate a\n  start b\n  start c\n  match Never()\n",
     "flow c\n  match E1()\n\nflow p\n  start c\n  match E2()\n\nflow main\n  start p as $p\n  match $p.Finished()\n  send Out1()\n  start p\n  match E3()\n  send Out2()\n  match Never()\n",
 ]
 
@@ -88,16 +92,10 @@ def explore(ctx, nprog, maxhist, maxpick, seed_offset=0, counter=None, maxtick=1
 
     with ThreadPoolExecutor(16) as ex:
         results = list(ex.map(run_tlc, prepared))
-    colang2.install_scripted_random()
-    sm = colang2.sm
-    from nemoguardrails.colang.v2_x.runtime import flows as _fl
-    clock = _VClock
-    sm.datetime = clock           # fully virtual time: the clean-up age never depends on how long the check runs
-    _fl.datetime = clock          # time stamps of status changes come from the same clock
-    created = _log_action_creation()
     out = {"programs": len(prepared), "outside_fragment": outside, "states": 0, "transitions": 0, "compared": 0, "drift": 0,
-           "spec_violations": [], "traces": [], "drift_samples": [], "errors": [], "bounds": [], "age_pairs": []}
-    for (i, src, prog, alphabet), r in zip(prepared, results):
+           "spec_violations": [], "traces": [], "drift_samples": [], "errors": [], "bounds": [], "age_pairs": [], "aged_states": 0}
+    todo = []
+    for k, ((i, src, prog, alphabet), r) in enumerate(zip(prepared, results)):
         hard = [x for x in r.errors if "The behavior up to this point" not in x and "counter-example" not in x]
         if hard or (not r.violated and r.rc not in (0,)):
             out["errors"].append({"program": src, "error": r.errors[:2], "tail": r.out[-3000:]})
@@ -106,6 +104,40 @@ def explore(ctx, nprog, maxhist, maxpick, seed_offset=0, counter=None, maxtick=1
         out["transitions"] += r.generated
         for inv in r.violated:
             out["spec_violations"].append({"invariant": inv, "program": src, "counterexample": tlc.counterexample(r.out)[:3000]})
+        todo.append(k)
+    # replay every printed specification state in the real interpreter: one process per program (fork: the job data is inherited)
+    _JOB.update(prepared=prepared, printed=[[p for p in r.printed if "hist" in p] for r in results], counter=counter, age_pairs=age_pairs)
+    import multiprocessing as mp
+    with mp.get_context("fork").Pool(16) as pool:
+        for part in pool.imap_unordered(_replay_program, sorted(todo, key=lambda k: -len(_JOB["printed"][k])), chunksize=1):
+            for key in ("compared", "drift", "aged_states"):
+                out[key] += part[key]
+            for key in ("traces", "bounds", "age_pairs"):
+                out[key] += part[key]
+            out["drift_samples"] += part["drift_samples"][: max(0, 5 - len(out["drift_samples"]))]
+    _JOB.clear()
+    out["traces"].sort(key=lambda t: t["origin"])
+    return out
+
+
+_JOB = {}
+
+
+def _replay_program(k):
+    """Worker: replays all printed histories of program k through the real run_to_completion and compares."""
+    (i, src, prog, alphabet) = _JOB["prepared"][k]
+    printed = _JOB["printed"][k]
+    counter = _JOB["counter"]
+    age_pairs = _JOB["age_pairs"]
+    out = {"compared": 0, "drift": 0, "aged_states": 0, "traces": [], "drift_samples": [], "bounds": [], "age_pairs": []}
+    colang2.install_scripted_random()
+    sm = colang2.sm
+    from nemoguardrails.colang.v2_x.runtime import flows as _fl
+    clock = _VClock
+    sm.datetime = clock           # fully virtual time: the clean-up age never depends on how long the check runs
+    _fl.datetime = clock          # time stamps of status changes come from the same clock
+    created = _log_action_creation()
+    if True:
         del created[:]
         clock.offset = 0.0
         base = colang2.start_main(colang2.compile_program(src))
@@ -143,9 +175,7 @@ def explore(ctx, nprog, maxhist, maxpick, seed_offset=0, counter=None, maxtick=1
                 outs.append([[e["type"], amap.get(e.get("action_uid"), 0)] for e in s.outgoing_events])
             return s, steps, None, outs
 
-        for p in r.printed:
-            if "hist" not in p:
-                continue
+        for p in printed:
             s, steps, err, outs = _replay(p["hist"])
             if age_pairs and any(h[0] == 0 for h in p["hist"]):
                 _, _, err0, outs0 = _replay([h for h in p["hist"] if h[0] != 0])
@@ -153,7 +183,7 @@ def explore(ctx, nprog, maxhist, maxpick, seed_offset=0, counter=None, maxtick=1
                 s, steps, err, outs = _replay(p["hist"])          # (the creation log is the one of the history itself again)
             out["compared"] += 1
             if any(f["status"] == "GONE" for f in p["proj"]["flows"]):
-                out["aged_states"] = out.get("aged_states", 0) + 1
+                out["aged_states"] += 1
             if err is not None:
                 out["drift"] += 1
                 out["drift_samples"].append({"program": src, "hist": p["hist"], "error": err})
